@@ -24,7 +24,15 @@ def run(ids):
         props = [p for p in props if os.path.exists(os.path.join(VERIF, "rules", p.lower() + ".py"))]
         out = {}
         if props:
-            r = subprocess.run([sys.executable, os.path.join(VERIF, "bin", "try_patch.py"), os.path.join(d, "patch.diff")] + props, capture_output=True, text=True)
+            cache = os.path.join(os.environ.get("VP_TRY_CACHE", "/nonexistent"), "try_%s.out" % sid)
+            if os.path.exists(cache):
+                # the output of an earlier `bin/try_patch.py seeded/<id>/patch.diff <props>` run, kept by the session driver
+                class R0: pass
+                r = R0()
+                r.stdout = open(cache).read()
+                r.returncode = 0 if r.stdout.rstrip().endswith("CAUGHT") else (1 if r.stdout.rstrip().endswith("MISSED") else 3)
+            else:
+                r = subprocess.run([sys.executable, os.path.join(VERIF, "bin", "try_patch.py"), os.path.join(d, "patch.diff")] + props, capture_output=True, text=True)
             cur = None
             for l in r.stdout.splitlines():
                 m = re.match(r"== (C\d+) rc=(\d+)", l)
